@@ -101,6 +101,7 @@ func wellFormed(buf []byte, n int) bool {
 //@   modifies obj(asRd(r))
 
 //@ func LoadUint32(buf []byte) (ret uint32, bytesRead uint64, err error)
+//@   ensures[single-byte-group] len(buf) > 0 && buf[0] < 0x80 ==> err == nil && bytesRead == 1 && ret == uint32(buf[0])
 //@   ensures[consumes-one-group] err == nil ==> bytesRead >= 1 && bytesRead <= 5 && wellFormed(buf, int(bytesRead))
 //@   ensures[value] err == nil ==> uint64(ret) == specU(buf, int(bytesRead))
 //@   ensures[canonical-range] err == nil && bytesRead == 5 ==> buf[4]&0xf0 == 0
